@@ -10,7 +10,7 @@ REPLAY_CRATE = os.path.join(VERIF, 'replay')
 _built = {}
 
 # which replay-crate family can search a concrete counterexample for a property
-FAMILY = {'C05': 'io', 'C06': 'io', 'C07': 'io', 'C19': 'io'}
+FAMILY = {'C05': 'io', 'C06': 'io', 'C07': 'io', 'C19': 'io', 'C02': 'conv'}
 
 
 def slug(name):
@@ -34,7 +34,17 @@ def binary():
     return os.path.join(REPLAY_CRATE, 'target', 'debug', 'replay')
 
 
+_search_cache = {}
+
+
 def search(prop, family, seed, budget):
+    key = (prop, family, seed, budget)
+    if key not in _search_cache:
+        _search_cache[key] = _search(prop, family, seed, budget)
+    return _search_cache[key]
+
+
+def _search(prop, family, seed, budget):
     if not build():
         return None, 'replay crate does not build against the current tree:\n' + _built.get('err', '')
     rc, out, err, _ = run([binary(), 'search', family, prop, str(seed), str(budget)], timeout=300)
@@ -46,6 +56,34 @@ def search(prop, family, seed, budget):
     return None, 'search over %d seeded cases found no failing input' % budget
 
 
+def decode_inputs(spec, values):
+    """spec 'secs:u64,nanos:u32' + Kani concrete-playback byte vectors (in kani::any() call order)"""
+    out = {}
+    names = [x.split(':') for x in spec.split(',') if x]
+    for (name, ty), val in zip(names, values):
+        n = int.from_bytes(bytes(val), 'little', signed=False)
+        if ty.startswith('i'):
+            bits = 8 * len(val)
+            if n >= 1 << (bits - 1):
+                n -= 1 << bits
+        out[name] = n
+    return out
+
+
+def case_from_kani(v):
+    """turn a Kani counterexample into a replay-crate case, where a mapping exists"""
+    if not v.get('kani_values') or not v.get('inputs') or not v.get('family'):
+        return None
+    vals = v['kani_values'][0]['values']
+    d = decode_inputs(v['inputs'], vals)
+    if v['family'] == 'conv':
+        kind = 'timer' if 'timer' in v['obligation'] else 'hist'
+        if d.get('nanos', 0) >= 1000000000:
+            return None
+        return 'kind=%s;secs=%d;nanos=%d' % (kind, d.get('secs', 0), d.get('nanos', 0))
+    return None
+
+
 def make_replay(prop, n, v, seed, tier):
     os.makedirs(REPLAY_DIR, exist_ok=True)
     path = os.path.join(REPLAY_DIR, '%s-%d.json' % (prop, n))
@@ -53,6 +91,12 @@ def make_replay(prop, n, v, seed, tier):
                verifier_message=v.get('message'), clause=v.get('clause'), verifier_output=v.get('rendered'),
                repo_location='%s:%s' % (v.get('repo_file'), v.get('repo_line')) if v.get('repo_file') else None)
     found = False
+    if v.get('kani_values'):
+        doc['kani_counterexample'] = v['kani_values']
+        doc['kani_inputs'] = v.get('inputs')
+        c = case_from_kani(v)
+        if c:
+            v = dict(v, case=c)
     if v.get('case'):
         # the verifier itself produced a concrete counterexample (Kani concrete playback)
         doc.update(family=v.get('family'), case=v['case'], source='verifier counterexample')
